@@ -55,7 +55,7 @@ func init() {
 		old := debug.SetGCPercent(1)
 		defer debug.SetGCPercent(old)
 		bad := ""
-		for i := 0; i < 60000 && bad == ""; i++ {
+		for i := 0; i < 30000 && bad == ""; i++ {
 			func() {
 				defer func() {
 					if r := recover(); r != nil {
@@ -68,7 +68,7 @@ func init() {
 				}
 			}()
 		}
-		return bad != "", "60000 decodes of a full tail array under forced collections: " + bad
+		return bad != "", "30000 decodes of a full tail array under forced collections: " + bad
 	}
 }
 
